@@ -228,8 +228,9 @@ Definition kf_varint_noncanonical (v : N) (bs : list N) : bool :=
 (* a varint inside the packet (Property Length, Subscription Identifier) cut off by the end of
    its buffer is read as if a zero byte followed; a missing Property Length reads as 0 *)
 Definition kf_varint_eof_inner (v : N) (bs : list N) : bool := accepted_despite SShort v bs.
-(* Unpack allocates the declared Remaining Length before reading *)
-Definition kf_alloc_upfront (v : N) (bs : list N) : bool := 64 * len bs + 4096 <? model_stream_alloc 4 v bs.
+(* Unpack allocates the declared Remaining Length before reading: more is allocated than the
+   input supplies *)
+Definition kf_alloc_upfront (v : N) (bs : list N) : bool := len bs <? model_stream_alloc 4 v bs.
 (* PUBACK, PUBREC, PUBREL, PUBCOMP: fixed-header flags are not checked *)
 Definition kf_ack_flags (v : N) (bs : list N) : bool :=
   let t := ptype_of bs in
